@@ -17,6 +17,16 @@ namespace IndicatifModel.Rows
 
 abbrev Row := Text
 
+/-- the rows a terminal of `W` columns shows for one line: a glyph that does not fit the rest of the row starts the next one
+(zero-width glyphs stay where they are; a double-width glyph moves to the next row as a whole); `W = 0`: no wrapping -/
+def wrapText (W : Nat) (t : Text) : List Row :=
+  if W = 0 then [t] else
+  let r := t.foldl (fun (acc : List Row × Row × Nat) g =>
+    if g.w > 0 ∧ acc.2.2 + g.w > W then (acc.1 ++ [acc.2.1], [g], g.w) else (acc.1, acc.2.1 ++ [g], acc.2.2 + g.w)) ([], [], 0)
+  r.1 ++ [r.2.1]
+
+def wrapRows (W : Nat) (rows : List Row) : List Row := rows.flatMap (wrapText W)
+
 structure RBar where
   b : Bar
   lines : List Row := []      -- the member's stored rendering
@@ -43,6 +53,8 @@ structure RW where
   now : Nat := 0
   frames : List (List Row) := []   -- observation: the screen after every painted draw
   panicked : Bool := false
+  /-- width of the terminal (lines wrap at it); 0 = wide enough that nothing wraps -/
+  wrapW : Nat := 0
 deriving Repr
 
 def RW.barAt (w : RW) (k : Nat) : RBar := w.bars.getD k { b := {} }
@@ -107,7 +119,8 @@ def markZombie (w : RW) (k : Nat) : RW :=
 def setBar (w : RW) (k : Nat) (b : Bar) : RW := { w with bars := w.bars.modify k (fun rb => { rb with b := b }) }
 
 /-- what a bar renders: nothing once it is finished-and-cleared -/
-def barRows (rb : RBar) : List Row := if rb.b.status = .doneHidden then [] else (formatState rb.b).map (·.gs)
+def barRows (rb : RBar) : List Row :=
+  if rb.b.status = .doneHidden then [] else wrapRows rb.b.wrapW ((formatState rb.b).map (·.gs))
 
 /-- the `DrawStateWrapper` round trip: the member's stored lines are replaced, its text lines are queued -/
 def store (w : RW) (k : Nat) (rows : List Row) (text : List Row) : RW :=
@@ -144,6 +157,9 @@ def dropBar (w : RW) (k : Nat) : RW :=
 
 def textRows (t : Text) : List Row := let ls := splitLines t; if ls = [] then [[]] else ls
 
+/-- the rows of a printed text on a terminal of `W` columns -/
+def textRowsW (W : Nat) (t : Text) : List Row := wrapRows W (textRows t)
+
 def barStep (w : RW) (k : Nat) (op : BarOp) : RW :=
   if k ≥ w.bars.length then w else
   let rb := w.barAt k
@@ -164,8 +180,10 @@ def barStep (w : RW) (k : Nat) (op : BarOp) : RW :=
   | .setPrefix t => barDraw (setBar w k { b with pfx := t }) k false []
   | .setLen l => barDraw (setBar w k { b with len := some l }) k false []
   | .unsetLen => barDraw (setBar w k { b with len := none }) k false []
-  | .println t => if !rb.member then w else barDraw w k true (textRows t)
-  | .suspend out => if !rb.member then { w with scr := w.scr ++ out, log := w.log ++ out, blank := decide (out ≠ []) || w.blank } else suspend w out
+  | .println t => if !rb.member then w else barDraw w k true (textRowsW w.wrapW t)
+  | .suspend out =>
+    let out := wrapRows w.wrapW out
+    if !rb.member then { w with scr := w.scr ++ out, log := w.log ++ out, blank := decide (out ≠ []) || w.blank } else suspend w out
   | .reset =>
     barDraw (setBar w k { b with pos := 0, posLim := { b.posLim with prev := w.now - b.start }, status := .inProgress }) k false []
   | .finish f => finishWith w k b f
@@ -189,16 +207,16 @@ def step (w : RW) (op : MOp) : RW :=
     match pos with
     | none => { w with panicked := true }
     | some p =>
-      let b : Bar := { len := len, tpl := templates.getD tpl [], onFinish := fin, pfx := pfx, start := w.now }
+      let b : Bar := { len := len, tpl := templates.getD tpl [], onFinish := fin, pfx := pfx, start := w.now, wrapW := w.wrapW }
       { w with bars := w.bars ++ [{ b := b }], ordering := insertAt w.ordering p k }
   | .remove k =>
     if k ≥ w.bars.length ∨ !(w.barAt k).member then w else
     let w := { w with bars := w.bars.modify k (fun rb => { rb with member := false }),
                       ordering := w.ordering.filter (· ≠ k), stale := true }
     draw w true []
-  | .mpPrintln t => draw w true (textRows t)
+  | .mpPrintln t => draw w true (textRowsW w.wrapW t)
   | .mpClear => clear w
-  | .mpSuspend out => suspend w out
+  | .mpSuspend out => suspend w (wrapRows w.wrapW out)
   | .align _ => w      -- bottom alignment is outside this abstraction (the ROWS stream never uses it)
   | .retarget =>       -- a new target: nothing on the screen is managed any more
     { w with n := 0, z := 0, stale := true, limiter := w.limiter.map (fun p => (p.1, ({ cap := 20, prev := w.now } : Limiter.St))) }
